@@ -30,14 +30,18 @@ ASSUMPTIONS = [
 ]
 
 ROOT = "capsule"  # the upload directory inside the sandbox; capsule-secret / capsule2 are prefix-sharing siblings
-TOKENS = {"none": None, "one": ["tok-1"], "several": ["tok-1", "tok-2", "tok 3"]}
+TOKENS = {"none": None, "one": ["tok-1"], "several": ["tok-1", "tok-2", "tok 3"], "blank": [""], "blanks": ["  ", ""]}
 
 
 @st.composite
 def request_st(draw, spec):
     nodes = fsgen.SKELETON + spec["nodes"]
-    k = draw(st.integers(0, 9))
+    k = draw(st.integers(0, 10))
     labels = []
+    if k == 10:
+        k = 9
+    elif k == 9:
+        k = 8
     if k <= 3:
         name = draw(st.sampled_from(["new.gmi", "a.gmi", "sub/new.txt", "deep/er/file.gmi", "x", "b.txt"]))
         path = "/" + name
@@ -55,16 +59,22 @@ def request_st(draw, spec):
     elif k <= 8:
         path = draw(pathspell.hostile_paths())
         labels.append("hostile")
+    elif k == 9 and any(nd["t"] == "link" for nd in spec["nodes"]):
+        # through a link (possibly to an outside directory) to a file that exists behind it
+        lk = draw(st.sampled_from([nd for nd in spec["nodes"] if nd["t"] == "link"]))
+        inner = draw(st.sampled_from(["out.gmi", "secret.gmi", "two.gmi", "index.gmi", "dir/deep.gmi", "a.gmi", "new-behind-link.gmi"]))
+        path = "/" + "/".join(lk["p"].split("/")[1:]) + "/" + inner
+        labels += ["through-link", "aim-outside"]
     else:
         path = draw(st.sampled_from(["/", "", "/.", "//", "/capsule", "/../capsule/x"]))
         labels.append("root-ish")
     path = path.replace(";", "%3B").replace("?", "%3F").replace("#", "%23").replace("\x00", "%00").replace("\n", "%0A")
     path = "".join(ch if 0x20 < ord(ch) < 0x7F else "".join("%%%02X" % b for b in ch.encode("utf-8", "surrogateescape")) for ch in path)
     n = draw(st.sampled_from([0, 0, 1, 10, 63, 64, 65, 200, 5000]))
-    if "aim-existing" in labels and draw(st.booleans()):
+    if ("aim-existing" in labels or "through-link" in labels) and draw(st.booleans()):
         n = 0  # deletes need an existing target to succeed
     content = bytes((i * 13 + 5) & 0xFF for i in range(n))
-    tok = draw(st.sampled_from([None, "tok-1", "tok-2", "wrong", "", "tok-1;token=wrong", "wrong;token=tok-1"]))
+    tok = draw(st.sampled_from([None, "tok-1", "tok-2", "wrong", "", "  ", "tok-1;token=wrong", "wrong;token=tok-1"]))
     mime = draw(st.sampled_from([None, "text/gemini", "text/plain", "image/png", "application/x-evil"]))
     return {"path": path, "size": n, "content": b2s(content), "token": tok, "mime": mime, "labels": labels}
 
@@ -72,7 +82,7 @@ def request_st(draw, spec):
 @st.composite
 def case_st(draw, with_fault=True):
     spec = draw(fsgen.tree_spec(max_nodes=8))
-    cfg = {"tokens": draw(st.sampled_from(["none", "none", "one", "several"])),
+    cfg = {"tokens": draw(st.sampled_from(["none", "none", "one", "several", "blank", "blanks"])),
            "max_size": draw(st.sampled_from([64, None])),
            "types": draw(st.sampled_from([None, None, ["text/gemini", "text/plain"]])),
            "delete": draw(st.booleans()),
